@@ -4,6 +4,8 @@ scenario that veneer.currentScenario designates) in execution order together wit
 scenarios and a snapshot of what the objects and the behaviours' globals read, and snapshots the
 scene and the interpreter's global state afterwards."""
 import builtins
+import hashlib
+import importlib
 import json
 import os
 import random
@@ -51,6 +53,11 @@ class API:
 
     def __init__(self):
         self.reset(None, 0)
+
+    flag = 0
+
+    def FLAG_(self):
+        return self.flag
 
     def reset(self, scene, run):
         self.log = []
@@ -275,22 +282,93 @@ def scene_snapshot(scene, ns):
     return rows
 
 
-def one_run(scene, job, run, ns, fault, seed):
+def one_run(scene, job, run, ns, fault, seed, flag=0, timestep=None, steps=None):
     A.reset(scene, run)
+    A.flag = flag
     random.seed(seed)
     numpy.random.seed(seed)
     out = {}
     out["before"] = scene_snapshot(scene, ns)
+    kw = {} if timestep is None else dict(timestep=timestep)
     try:
-        sim = FaultySimulator(fault=fault, ns=ns).simulate(scene, maxSteps=job.get("steps", 8), maxIterations=1,
-                                                          raiseGuardViolations=job.get("raise_guard", True))
+        sim = FaultySimulator(fault=fault, ns=ns).simulate(scene, maxSteps=steps if steps is not None else job.get("steps", 8), maxIterations=1,
+                                                          raiseGuardViolations=job.get("raise_guard", True), **kw)
         out["outcome"] = "rejected" if sim is None else "completed"
         out["result"] = result_canon(sim)
+        if sim is not None:
+            out["time"] = sim.currentTime
     except BaseException as e:
         out["outcome"] = "exception:" + type(e).__name__
         out["exc"] = str(e)[:200]
     out["log"] = list(A.log)
     out["after"] = scene_snapshot(scene, ns)
+    A.flag = 0
+    return out
+
+
+def summary(r):
+    """(the raw module namespace between simulations - last row of before/after - is left out: requirement closures bind the
+    globals they mention to the sample of the scene generated LAST, restored only for the duration of a simulation)
+    what a run shows to its user, for the later-use oracle (k-th run of a history == the same run after a fresh
+    compilation in a fresh process): outcome class, termination, final time, records, digest of result and log"""
+    res = r.get("result") or {}
+    blob = json.dumps([r["outcome"], re.sub(r"0x[0-9a-f]+", "0x", r.get("exc", "")), res, r.get("time"), r["log"], r["before"][:-1], r["after"][:-1]], sort_keys=True)
+    out = dict(outcome=r["outcome"], term=res.get("term"), time=r.get("time"), records=res.get("records"), nlog=len(r["log"]),
+               digest=hashlib.sha1(blob.encode()).hexdigest()[:16])
+    if os.environ.get("VERIF_C14_DEBUG"):
+        out["blob"] = blob
+    return out
+
+
+RUNS_DEFAULT = [dict(scene=0, run=0, seed_off=1), dict(scene=0, run=0, seed_off=1), dict(scene=0, run=1, seed_off=2)]
+
+
+class Compiled:
+    """one compilation of a job's program and the scenes generated from it (by scene index, lazily, each with its own seed)"""
+
+    def __init__(self, job):
+        self.job = job
+        random.seed(job["seed"])
+        numpy.random.seed(job["seed"])
+        self.scenario = compile_job(job)
+        self.scenes = {}
+
+    def scene(self, k):
+        if k not in self.scenes:
+            random.seed(self.job["seed"] + 7919 * k)
+            numpy.random.seed(self.job["seed"] + 7919 * k)
+            scene, _ = self.scenario.generate(maxIterations=50)
+            self.scenes[k] = (scene,) + tuple(find_ns(scene))
+        return self.scenes[k]
+
+    def simulate(self, spec):
+        scene, ns, sampled = self.scene(spec.get("scene", 0))
+        return one_run(scene, self.job, spec.get("run", 0), ns, self.job.get("sim_fault"), self.job["seed"] + spec.get("seed_off", 1),
+                       flag=spec.get("flag", 0), timestep=spec.get("ts"), steps=spec.get("steps"))
+
+
+def start_guard_violation(spec, r):
+    return bool(spec.get("flag")) and not r["log"] and r["outcome"] in ("rejected", "exception:PreconditionViolation", "exception:InvariantViolation")
+
+
+def run_reference(job):
+    """reference for the later-use oracle over histories: `ref_plan` = list of run-index lists; each list is made from a NEW
+    compilation, its first run is therefore the run as a fresh compilation makes it (`fresh`), the following ones have a
+    history different from the one under test (`other`)"""
+    out = dict(name=job["name"], ref={})
+    specs = job.get("runs", RUNS_DEFAULT)
+    for order in job.get("ref_plan", [[k] for k in range(len(specs))]):
+        A.reset(None, 0)
+        comp = None
+        for pos, k in enumerate(order):
+            key = json.dumps(specs[k], sort_keys=True)
+            try:
+                if comp is None:
+                    comp = Compiled(job)
+                res = summary(comp.simulate(specs[k]))
+            except BaseException as e:
+                res = dict(error=type(e).__name__ + ": " + str(e)[:200])
+            out["ref"].setdefault(key, []).append(dict(res=res, fresh=pos == 0))
     return out
 
 
@@ -306,44 +384,78 @@ def compile_job(job):
         for name, text in job["file"].items():
             with open(os.path.join(d, name), "w") as f:
                 f.write(text)
+        importlib.invalidate_caches()
         return scenic.scenarioFromFile(os.path.join(d, job["main"]), scenario=job.get("scenario", "Main"), **kw)
     return scenic.scenarioFromString(job["src"], scenario=job.get("scenario", "Main"), **kw)
 
 
 def run_program(job):
     out = dict(name=job["name"])
-    random.seed(job["seed"])
-    numpy.random.seed(job["seed"])
     A.reset(None, 0)
     try:
-        scenario = compile_job(job)
-        scene, _ = scenario.generate(maxIterations=50)
+        comp = Compiled(job)
+        scene, ns, sampled = comp.scene(0)
     except BaseException as e:
         out["skip"] = "compile/generate: " + type(e).__name__ + ": " + str(e)[:300]
         out["veneer_after"] = veneer_state()
         return out
-    ns, sampled = find_ns(scene)
     out["gs"] = ns_row(sampled)
     allprops_before = scene_props(scene)
-    fault = job.get("sim_fault")
-    r1 = one_run(scene, job, 0, ns, fault, job["seed"] + 1)
+    specs = job.get("runs", RUNS_DEFAULT)
+    hist = []
+    out["hist"] = hist
+    # run 1; run 2 = the same scene with the same seed and options (re-run equality); run 3 = the same scene taking a
+    # different course (the program reads RUN()), other timestep / maxSteps
+    r1 = comp.simulate(specs[0])
+    hist.append(summary(r1))
     out.update(r1)
     out["allprops_equal"] = scene_props(scene) == allprops_before
     if not out["allprops_equal"]:
         a = scene_props(scene)
         out["allprops_diff"] = [[i, k, repr(allprops_before[i].get(k)), repr(a[i].get(k))] for i in range(len(a)) for k in a[i] if a[i].get(k) != allprops_before[i].get(k)][:10]
     out["veneer_after"] = veneer_state()
-    # re-running with the same seed gives the same result
-    r2 = one_run(scene, job, 0, ns, fault, job["seed"] + 1)
+    r2 = comp.simulate(specs[1])
+    hist.append(summary(r2))
     out["rerun_outcome"] = r2["outcome"]
     out["rerun_equal"] = r2.get("result") == r1.get("result")
     out["rerun_log_equal"] = r2["log"] == r1["log"]
     out["after2"] = r2["after"]
-    # a third simulation of the same scene that takes a different course (the program reads RUN())
-    r3 = one_run(scene, job, 1, ns, fault, job["seed"] + 2)
+    r3 = comp.simulate(specs[2])
+    hist.append(summary(r3))
     out["run3"] = dict(log=r3["log"], before=r3["before"], after=r3["after"], outcome=r3["outcome"])
     out["allprops_equal3"] = scene_props(scene) == allprops_before
     out["veneer_after3"] = veneer_state()
+    # the rest of the history: fresh scenes of the SAME compiled scenario and the first scene again, with other
+    # timesteps / maxSteps / guard outcomes; every run is compared (by the orchestrator) with the same run made from
+    # a fresh compilation in another process
+    prev_spec, prev = specs[2], r3
+    props = {0: allprops_before}
+    for spec in specs[3:]:
+        k = spec.get("scene", 0)
+        try:
+            sc_k = comp.scene(k)[0]
+        except BaseException as e:
+            hist.append(dict(error="generate: " + type(e).__name__ + ": " + str(e)[:200]))
+            continue
+        props.setdefault(k, scene_props(sc_k))
+        r = comp.simulate(spec)
+        h = summary(r)
+        if r["outcome"] == "exception:AssertionError" and start_guard_violation(prev_spec, prev):
+            # known defect: the top-level scenario object was left `running` by the failed delayed guard check; the
+            # compiled scenario is unusable from here on: note it, compile again, repeat the run
+            h["after_start_guard_violation"] = True
+            try:
+                comp = Compiled(job)
+                props = {}
+                r = comp.simulate(spec)
+                h["redo"] = summary(r)
+            except BaseException as e:
+                h["redo"] = dict(error=type(e).__name__ + ": " + str(e)[:200])
+        elif scene_props(sc_k) != props[k]:
+            h["scene_changed"] = True
+        hist.append(h)
+        prev_spec, prev = spec, r
+    out["veneer_after_hist"] = veneer_state()
     return out
 
 
@@ -378,6 +490,28 @@ def run_probe(job):
         return dict(error=type(e).__name__ + ": " + str(e)[:200])
 
 
+def run_chist(job):
+    """a compile history: every operation compiles a program importing a helper .scenic module (some fail after the
+    import succeeded); per operation: error class or what the compiled scenario contains and does, and the interpreter state"""
+    out = dict(name=job["name"], ops=[])
+    for op in job["ops"]:
+        j = dict(file=op["files"], main=op["main"], params=op.get("params"), scenario=op.get("scenario"), mode2D=op.get("mode2D"), seed=op["seed"])
+        A.reset(None, 0)
+        random.seed(op["seed"])
+        numpy.random.seed(op["seed"])
+        try:
+            scenario = compile_job(j)
+            scene, its = scenario.generate(maxIterations=50)
+            sim = DummySimulator().simulate(scene, maxSteps=5, maxIterations=1)
+            res = dict(nobjects=len(scene.objects), its=its,
+                       objects=[[intval(getattr(o, p, None)) for p in PROPS] + [float(o.position.x), float(o.position.y), type(o.behavior).__name__] for o in scene.objects],
+                       params={k: repr(v) for k, v in sorted(scene.params.items())}, result=result_canon(sim))
+        except BaseException as e:
+            res = dict(error=type(e).__name__)
+        out["ops"].append(dict(what=op["what"], res=res, state=veneer_state()))
+    return out
+
+
 def main():
     job = json.load(sys.stdin)
     outs = []
@@ -387,6 +521,10 @@ def main():
                 outs.append(dict(name=p["name"], state=veneer_state()))
             elif p.get("probe"):
                 outs.append(dict(name=p["name"], probe=run_probe(p), veneer_after=veneer_state()))
+            elif p.get("chist"):
+                outs.append(run_chist(p))
+            elif p.get("ref"):
+                outs.append(run_reference(p))
             else:
                 outs.append(run_program(p))
         except BaseException:
